@@ -205,6 +205,12 @@ def main():
         os.makedirs(os.path.dirname(vlib.mo_profile_path(pid)), exist_ok=True)
         json.dump({k: sorted(v) for k, v in sorted(mo_obs.items())}, open(vlib.mo_profile_path(pid), "w"), indent=1)
     mo_bad = vlib.mo_compare(pid, mo_obs)
+    # informational: which functions of the anchored files ever performed a logged access
+    funcs_seen = set()
+    for r in results:
+        funcs_seen.update((r.get("sig") or {}).get("funcs", []))
+    anchored = vlib.anchored_functions(pid)
+    funcs_unseen = sorted(f for f in anchored if f not in funcs_seen)
     validated = sum(1 for r in results if r["drv"].get("validate_ok"))
     events_validated = sum(r["drv"].get("events", 0) for r in results if r["drv"].get("validate_ok"))
     obligations = lean["obligations"]
@@ -308,6 +314,9 @@ def main():
             "memory_order_sites_checked": len(mo_obs),
             "memory_order_weakenings": mo_bad,
             "monitor_failures": len(fails),
+            "anchored_functions": len(anchored),
+            "anchored_functions_with_logged_accesses": len(anchored) - len(funcs_unseen),
+            "anchored_functions_without_logged_accesses": funcs_unseen,
         },
         "assumptions": spec.get("assumptions", []),
         "wall_s": round(time.time() - t0, 2),
